@@ -17,12 +17,16 @@ ID = "C13"
 RUNS = {"quick": 24000, "thorough": 200000, "thorough_s": 240}
 CHUNK = 200
 TOL = 1e-12
+RUN_TIMEOUT = 600.0
 RULE = ("seeded annotated networks with 1-3 topologies (cliques 2-4, 4-/5-cycles, names such as '2-clique-blue'): clean "
         "motif networks from a direct constructor (4..40 vertices) or outputs of the real network generator under "
-        "scheduled shuffles (self-loops removed); histories of 1..5 operations on one extractor (get_ejks again, fresh "
+        "scheduled shuffles (self-loops removed), plus ONE network of ~6e5-7e5 edges (complete graph on 1100-1200 vertices with pendant "
+        "vertices) per invocation; histories of 1..5 operations on one extractor (get_ejks again, fresh "
         "extractor, overall-degree variant); non-trivial = network has >= 2 edges and the history has >= 2 extractions; "
         "distinct = distinct execution digests")
-ASSUMPTIONS = ["reference = direct tally over ordered edge ends, float tolerance 1e-12",
+ASSUMPTIONS = ["reference = direct tally over ordered edge ends; float tolerance 1e-12 + 4.5e-16 x (edge ends of the topology), i.e. "
+               "accumulated rounding of the additions that make up a cell and nothing more (a fixed 1e-12 false-alarmed on a "
+               "1.4e6-edge-end network: DESIGN §11)",
                "a topology without edges must yield an empty matrix (sum clause vacuous)"]
 REAL = ["gcmpy.tools.joint_excess_joint_degree.JointExcessJointDegree", "JointExcessJointDegreeMatrices",
         "gcmpy.tools.joint_excess_degree.JointExcessDegree", "GCMAlgorithmNetwork + EdgeListToNetwork (network source)"]
@@ -30,6 +34,12 @@ STUB = ["entropy source (decision stream)", "direct clean-network constructor (f
 
 
 def generate(prng, tier, index):
+    if index == 0 or (tier == "thorough" and index % 4000 == 0):
+        # scale: matrix cells are multiples of 0.5 / E_t, so anything that treats "small" cells specially (cut-offs,
+        # float accumulation) only shows on a topology with ~1e6 edge ends; one such network per invocation
+        return {"variant": "clean", "source": "huge", "topos": [{"kind": "clique", "size": 2, "name": "2-clique"}],
+                "clique": prng.choice((1100, 1150, 1200)), "pendants": prng.randrange(1, 4), "ops": ["same"],
+                "names_prefix": 1}
     big = tier == "thorough" or prng.random() < 0.1
     ntop = prng.randrange(1, 4)
     topos = [dict(t) for t in prng.sample(netsim.TOPO_POOL, ntop)]
@@ -71,6 +81,10 @@ def check_matrices(sc, ctx, G, names, res, tag):
     for i, name in enumerate(names):
         m = ejks[name]
         r = ref[name]
+        ends = 2 * sum(1 for _, _, d in G.edges(data=True) if d.get(netsim.TOP) == name)
+        # a cell is a sum of up to `ends` float additions of 0.5/E: allow accumulated rounding (n * eps), nothing more;
+        # 1e-12 for ordinary sizes, ~6e-10 at 1.3e6 edge ends - far below any cell, which is at least 0.5/E
+        tol = TOL + 4.5e-16 * ends
         if set(m) != set(r):
             extra = sorted(set(m) - set(r))[:2]
             miss = sorted(set(r) - set(m))[:2]
@@ -78,18 +92,18 @@ def check_matrices(sc, ctx, G, names, res, tag):
                                       f"(unexpected {extra}, missing {miss}){tag}")
             return None
         for k in sorted(r):
-            if abs(m[k] - r[k]) > TOL:
+            if abs(m[k] - r[k]) > tol:
                 ctx.violate(f"{P}.exact", f"topology {name!r}: entry {k} = {m[k]!r}, fraction of edge ends is {r[k]!r}{tag}")
                 return None
         h = len(next(iter(m))) // 2 if m else 0
         for k in m:
-            if abs(m[k] - m.get(k[h:] + k[:h], -1.0)) > TOL:
+            if abs(m[k] - m.get(k[h:] + k[:h], -1.0)) > tol:
                 ctx.violate(f"{P}.symmetric", f"topology {name!r}: entry {k} = {m[k]!r} but transposed entry is "
                                               f"{m.get(k[h:] + k[:h])!r}{tag}")
                 return None
             if k[:h] == k[h:]:
                 ctx.probe("self_paired_class")
-        if m and abs(sum(m.values()) - 1.0) > 1e-9:
+        if m and abs(sum(m.values()) - 1.0) > 1e-9 + 10 * tol:
             ctx.violate(f"{P}.sum", f"topology {name!r}: matrix sums to {sum(m.values())!r}, not 1{tag}")
             return None
         rows = {}
@@ -98,7 +112,7 @@ def check_matrices(sc, ctx, G, names, res, tag):
             rows[k[:h]] = rows.get(k[:h], 0.0) + x
         for k, x in r.items():
             rrows[k[:h]] = rrows.get(k[:h], 0.0) + x
-        if set(rows) != set(rrows) or any(abs(rows[a] - rrows[a]) > 1e-9 for a in rows):
+        if set(rows) != set(rrows) or any(abs(rows[a] - rrows[a]) > 1e-9 + 10 * tol for a in rows):
             ctx.violate(f"{P}.rows", f"topology {name!r}: row sums differ from the excess distribution of edge ends{tag}")
             return None
         kl = keys.get(name) if isinstance(keys, dict) else None
@@ -114,7 +128,24 @@ def execute(sc, ctx):
     P = "C13"
     topos = sc["topos"]
     src = ctx.source("gen", sc.get("policy"))
-    if sc["source"] == "direct":
+    if sc["source"] == "huge":
+        k, pend = sc["clique"], sc["pendants"]
+        G = nx.complete_graph(k)
+        # a tail of `pend` vertices hanging off vertex 0: every class pair along it occurs exactly once, so the matrix
+        # has cells at the smallest possible scale 1 / (2 E) whatever `pend` is
+        prev = 0
+        for j in range(pend):
+            G.add_edge(prev, k + j)
+            prev = k + j
+        name = topos[0]["name"]
+        for v in G.nodes():
+            G.nodes[v][netsim.JD] = (G.degree(v),)
+        for mid, (u, v) in enumerate(G.edges()):
+            d = G.edges[u, v]
+            d[netsim.TOP] = name
+            d[netsim.MID] = mid
+        ctx.probe("huge_network_edges", G.number_of_edges())
+    elif sc["source"] == "direct":
         net = netsim.build_network(sc["spec"])
         G = net.G
     else:
@@ -129,7 +160,7 @@ def execute(sc, ctx):
             G.remove_edges_from(loops)
             ctx.probe("self_loops_removed")
     names = netsim.names({"topos": topos})[: sc.get("names_prefix", len(topos))]
-    before = netsim.snapshot(G)
+    before = netsim.snapshot(G) if sc["source"] != "huge" else (G.number_of_nodes(), G.number_of_edges())
 
     def fresh():
         return JointExcessJointDegree({ToolsNames.NETWORK: G, ToolsNames.EDGE_NAMES: list(names)})
@@ -191,7 +222,8 @@ def execute(sc, ctx):
                     ctx.violate(f"{P}.repeat", f"matrices differ from the first call on the same extractor{tag}")
                     return
         ctx.result(op, sorted((n, sorted(m.items())) for n, m in got.items()))
-    ctx.expect(f"{P}.input", netsim.snapshot(G) == before, "the network was modified by extraction")
+    after = netsim.snapshot(G) if sc["source"] != "huge" else (G.number_of_nodes(), G.number_of_edges())
+    ctx.expect(f"{P}.input", after == before, "the network was modified by extraction")
     ctx.nt = G.number_of_edges() >= 2 and extractions >= 2
 
 
